@@ -88,6 +88,11 @@ func oneRun(t *testing.T, prop string, sc *Scenario, genT, schedT *simrt.RecTape
 		docVaried = fo > 0 || ff
 		docOrderer = true
 	}
+	explicitDefaults := false
+	if ed, ok := c.(interface{ SetExplicitDefaults(bool) }); ok {
+		explicitDefaults = gd.N(4) == 3
+		ed.SetExplicitDefaults(explicitDefaults)
+	}
 	if err := c.Prepare(); err != nil {
 		out.PrepErr = err.Error()
 		out.Viol = []Violation{{Clause: prop + "/harness-prepare", Detail: err.Error()}}
@@ -114,6 +119,7 @@ func oneRun(t *testing.T, prop string, sc *Scenario, genT, schedT *simrt.RecTape
 	o := sc.Check(c, res)
 	if docOrderer {
 		probe(o, "sequence-flow-elements-reordered-in-the-document", docVaried)
+		probe(o, "optional-attributes-spelled-out-with-their-default-values", explicitDefaults)
 	}
 	out.Viol = o.Viol
 	out.Steps = res.Steps
